@@ -179,6 +179,27 @@ pub(crate) mod vk {
     pub(crate) fn err_unsupported(_m: &'static str) -> Error { mk_err(Kind::Unsupported) }
     pub(crate) fn err_copy(e: &Error) -> Error { mk_err(kind_of(e)) }
 
+    // ------------------------------------------------------------------ spec functions shared between modules
+    /// xz-java Hash234.getHash4Size: size (entries) of the 4-byte hash table for a dictionary size
+    pub(crate) fn spec_hash4_size(dict_size: u32) -> u32 {
+        let mut h = dict_size - 1;
+        h |= h >> 1;
+        h |= h >> 2;
+        h |= h >> 4;
+        h |= h >> 8;
+        h >>= 1;
+        h |= 0xFFFF;
+        if h > (1 << 24) { h >>= 1; }
+        h + 1
+    }
+    /// xz-java LZEncoder.getBufSize: bytes of the encoder window buffer
+    pub(crate) fn spec_buf_size(dict_size: u32, extra_before: u32, extra_after: u32, match_len_max: u32) -> u64 {
+        let keep_before = extra_before as u64 + dict_size as u64;
+        let keep_after = extra_after as u64 + match_len_max as u64;
+        let reserve = core::cmp::min(dict_size as u64 / 2 + (256 << 10), 512 << 20);
+        keep_before + keep_after + reserve
+    }
+
     // ------------------------------------------------------------------ payload-layer ghost state (see kani/enc/lzma2_writer.rs)
     pub(crate) static mut PL_CUR_IN: u64 = 0;          // bytes accepted by the current payload writer
     pub(crate) static mut PL_BLOCKS: [u64; 4] = [0; 4]; // bytes accepted by each finished payload writer
